@@ -28,8 +28,21 @@ let fmtd (f : z list) (bits : z) : z list =
 let fstate = ref fmt_init
 let next_tid = ref 2
 
+(* custom serializers installed by P operations: (path, piece); cleared when a re-parse makes a fresh tree *)
+let pieces : (nat list * z list) list ref = ref []
+
+(* the piece a P operation's serializer prints (what the printf-family calls of harness/drv_ser.c produce) *)
+let piece_of (mode : char) (n : int) (tag : string) : string =
+  match mode with
+  | 'q' | 'm' | 'c' -> "\"" ^ tag ^ "\""
+  | 'd' -> "1" ^ Printf.sprintf "%0*d" n 7
+  | 's' -> String.make (max n 0) ' ' ^ "true"
+  | _ -> failwith "piece mode"
+
 (* json_object_to_json_string_length in the serializing thread *)
-let ser_len (fz : z) (v : jv) : z list * z =
+let ser_len ?(fresh = false) (fz : z) (v : jv) : z list * z =
+  (* fresh: a tree that just came out of the parser carries no custom serializer *)
+  let v = if fresh || !pieces = [] then v else with_pieces (List.rev !pieces) v in
   match effective !fstate Z0 with
   | None -> to_json_string_length fmt17 fz v
   | Some f -> let t = serialize_in fmt17 fmtd (Some f) (flags_of fz) O v in (t, z_of_int (List.length t))
@@ -77,7 +90,7 @@ let one (v : jv) (flags : string) : string =
      | PRFuel -> head ^ " FUEL"
      | PR (t', None) -> Printf.sprintf "%s PARSEFAIL %s" head (err_name t'.err)
      | PR (_, Some v') ->
-       let (text', _) = ser_len fz v' in
+       let (text', _) = ser_len ~fresh:true fz v' in
        Printf.sprintf "%s %s %s %s" head (if jv_equal v v' then "1" else "0") (string_of_jv v') (hex_of_bytes text'))
 
 (* "@" or "i.j.k" at the start of s; returns (path, rest of s) *)
@@ -111,7 +124,7 @@ let apply_op (op : string) (t : jv) (aside : jv option) (out : string list ref) 
      | None -> raise (Stop "R NEWFAIL")
      | Some tk ->
        (match parse_ex_cstr strtod_bits tk body_txt with
-        | PR (_, Some v') -> out := ("R " ^ hex_of_bytes text) :: !out; (v', aside)
+        | PR (_, Some v') -> out := ("R " ^ hex_of_bytes text) :: !out; pieces := []; (v', aside)
         | PR (t', None) -> raise (Stop (Printf.sprintf "R %s PARSEFAIL %s" (hex_of_bytes text) (err_name t'.err)))
         | PRFuel -> raise (Stop "R FUEL")))
   | 'D' -> let (p, rest) = parse_path body in
@@ -122,6 +135,14 @@ let apply_op (op : string) (t : jv) (aside : jv option) (out : string list ref) 
   | 'U' -> let (p, rest) = parse_path body in (hop_apply (HSetUint64 (nat_path p, z_of_string (after_eq rest))) t, aside)
   | 'B' -> let (p, rest) = parse_path body in (hop_apply (HSetBoolean (nat_path p, after_eq rest = "1")) t, aside)
   | 'T' -> let (p, rest) = parse_path body in (hop_apply (HSetString (nat_path p, bytes_of_hex (after_eq rest))) t, aside)
+  | 'P' -> let (p, rest) = parse_path body in
+    let a = after_eq rest in
+    (match String.split_on_char ',' a with
+     | [m; n; h] when String.length m = 1 ->
+       let tag = string_of_bytes (bytes_of_hex h) in
+       pieces := (nat_path p, bytes_of_string (piece_of m.[0] (int_of_string n) tag)) :: !pieces;
+       (t, aside)
+     | _ -> raise (Stop "BADOP"))
   | 'F' ->
     if String.length op < 5 || op.[3] <> '=' then raise (Stop "BADOP");
     let tid = (match op.[1] with 'm' -> Z0 | 'p' -> z_of_int 1 | 'h' -> let n = !next_tid in incr next_tid; z_of_int n | _ -> raise (Stop "BADOP")) in
@@ -152,7 +173,7 @@ let apply_op (op : string) (t : jv) (aside : jv option) (out : string list ref) 
 let run line =
   match split_on ' ' line with
   | tree :: flags :: rest ->
-    fstate := fmt_init; next_tid := 2;
+    fstate := fmt_init; next_tid := 2; pieces := [];
     let v0 = jv_of_string tree in
     let steps = ref [] in
     let v =
